@@ -137,7 +137,11 @@ class Run:
             printed.add(key)
             print("KNOWN-FINDING: property=%s %s [%s]" % (self.prop, e.get("what", ""), key))
 
-        rdir = os.path.join(ROOT, "replays", self.prop)
+        # runs against a scratch copy of the repository (mutation / seed demonstrations) must not touch the evidence and
+        # replay files of the real tree
+        foreign = os.path.realpath(os.environ.get("VERIF_REPO", "/repo")) != "/repo"
+        outroot = os.path.join(ROOT, ".scratch", "foreign-%d" % os.getpid()) if foreign else ROOT
+        rdir = os.path.join(outroot, "replays", self.prop)
         if os.path.isdir(rdir):
             for fn in os.listdir(rdir):
                 if fn.endswith(".json"):
@@ -182,8 +186,8 @@ class Run:
             "wall_s": round(wall, 3),
             "violations": len(real),
         }
-        os.makedirs(os.path.join(ROOT, "evidence"), exist_ok=True)
-        epath = os.path.join(ROOT, "evidence", self.prop + ".json")
+        os.makedirs(os.path.join(outroot, "evidence"), exist_ok=True)
+        epath = os.path.join(outroot, "evidence", self.prop + ".json")
         with open(epath, "w") as f:
             json.dump(ev, f, indent=1, default=repr, ensure_ascii=True)
 
@@ -204,6 +208,10 @@ class Run:
                (" states=%d transitions=%d" % (self.states, self.transitions)) if self.states is not None else "",
                len(printed), len(real), self.exhaustive, wall)
         )
+        if foreign:
+            import shutil
+
+            shutil.rmtree(outroot, ignore_errors=True)
         for e in self.internal_errors[:5]:
             print("INTERNAL-ERROR: %s" % e[:1500], file=sys.stderr)
         if len(self.internal_errors) > 5:
